@@ -43,7 +43,7 @@ Theorem C04_shiftnd_synth_char (S : ScalOps) (L : ScalLaws S) (rows : list (key 
   NoDup (map (fun k => vadd k dk) (map fst rows)) ->
   (forall k, In k (map fst rows) -> chi (vadd k dk) = kmul (chi k) (chi dk)) ->
   synthP chi (shiftnd1 rows dk) = kmul (chi dk) (synthP chi rows).
-Proof. exact (shiftnd1_synthP S L rows dk u inv). Qed.
+Proof. exact (fun H => shiftnd1_synthP S L rows dk u inv H chi). Qed.
 Print Assumptions C04_shiftnd_synth_char.
 
 (* (4) F- rebuilt as the mirror conjugate of F+ (array-level well-formedness of the F columns) *)
@@ -101,8 +101,8 @@ Print Assumptions C04_C_puts_time_on_axis_4.
 
 (* non-vacuity: a 2-D shift of a 3-row state over the Gaussian rationals *)
 Example C04_nonvacuous :
-  map fst (shiftnd1 [([-1; 0]%Z, mk3 (qi 1 2 0 1) (qi 0 1 0 1) (qi 0 1 1 2));
-                     ([0; 0]%Z, mk3 (qi 0 1 0 1) (qi 0 1 0 1) (qi 1 1 0 1));
-                     ([1; 0]%Z, mk3 (qi 0 1 0 1) (qi 1 2 0 1) (qi 0 1 (-1) 2))] [1; 1]%Z)
+  map fst (shiftnd1 [([-1; 0]%Z, @mk3 QIops (qi 1 2 0 1) (qi 0 1 0 1) (qi 0 1 1 2));
+                     ([0; 0]%Z, @mk3 QIops (qi 0 1 0 1) (qi 0 1 0 1) (qi 1 1 0 1));
+                     ([1; 0]%Z, @mk3 QIops (qi 0 1 0 1) (qi 1 2 0 1) (qi 0 1 (-1) 2))] [1; 1]%Z)
   = [[-2; -1]; [-1; -1]; [-1; 0]; [0; -1]; [0; 0]; [0; 1]; [1; 0]; [1; 1]; [2; 1]]%Z.
 Proof. vm_compute. reflexivity. Qed.
